@@ -24,6 +24,7 @@ type h2Seen struct {
 	FollowOK bool   `json:"follow_ok"`
 	FollowEr string `json:"follow_err,omitempty"`
 	SameConn bool   `json:"same_conn"`
+	Reread   []rr   `json:"reread,omitempty"`
 	Panic    string `json:"panic,omitempty"`
 	Hung     bool   `json:"hung,omitempty"`
 }
@@ -82,6 +83,7 @@ func h2Exchange(srv *wire.H2Server, sc *wire.H2Script, ref []byte, auto, waitGon
 			}
 			if resp != nil {
 				data = resp.Bytes()
+				o.Reread = reread(resp, data)
 			}
 		} else {
 			resp, err := c.R().DisableAutoReadResponse().Get("http://h2.test/x/" + id + "/1")
@@ -293,6 +295,7 @@ func runH2(r *hk.Run, rng *hk.Rand) {
 		in := map[string]interface{}{"terminal": term, "content_length": cl, "body_len": L, "data_frames_sent": keep, "of": len(pieces), "sent_bytes": len(sent), "mode": o.Mode,
 			"coding": coding, "plain_len": len(plain), "interim_blocks": sc.Interim}
 		success := o.CallErr == "" && o.ReadErr == ""
+		rereadOracle(r, "h2", sig, success, o.DLen, o.Reread, in, o)
 		// the message is complete and consistent iff it ended with END_STREAM after all the
 		// data and the declared length (if any) equals what was sent
 		properEnd := term == "end" || term == "end-empty" || term == "trailers" || term == "hdr-end"
